@@ -32,7 +32,7 @@ type c14Case struct {
 	Streams int    `json:"streams"`
 }
 
-var c14Classes = []string{"accepted", "oversized-body", "length-mismatch", "peer-reset-mid-body", "refused", "inflight-after-server-reset", "padding-only", "empty-data"}
+var c14Classes = []string{"accepted", "oversized-body", "length-mismatch", "peer-reset-mid-body", "refused", "inflight-after-server-reset", "padding-only", "empty-data", "inflight-after-server-timeout"}
 
 // sender is the conforming peer's send-side flow control.
 type sender struct {
@@ -123,7 +123,11 @@ func (s *sender) send(id uint32, data []byte, es bool, pad int) (string, string)
 
 func c14Exec(cs c14Case) (*fw.Violation, *harness.Server, int64) {
 	const maxBody = 64 << 10
-	h := harness.NewServer(harness.ServerOpts{MaxConcurrentStreams: 4, MaxRequestBodySize: maxBody})
+	so := harness.ServerOpts{MaxConcurrentStreams: 4, MaxRequestBodySize: maxBody}
+	if cs.Class == "inflight-after-server-timeout" {
+		so.ReadTimeout = 1000000000
+	}
+	h := harness.NewServer(so)
 	mk := func(rule, detail string) *fw.Violation {
 		ev := h.EventLog
 		if len(ev) > 12 {
@@ -256,6 +260,19 @@ func c14Exec(cs c14Case) (*fw.Violation, *harness.Server, int64) {
 					return mk(r, d), h, s.sent
 				}
 			}
+		case "inflight-after-server-timeout":
+			// the server gives the upload up when its time is over; three more frames were on their way
+			sid := open()
+			if r, d := s.send(sid, chunk, false, cs.Pad); r != "" {
+				return mk(r, d), h, s.sent
+			}
+			h.FireTimer()
+			for i := 0; i < 3; i++ {
+				if r, d := s.send(sid, chunk, i == 2, cs.Pad); r != "" {
+					return mk(r, d), h, s.sent
+				}
+			}
+			finishAll()
 		case "padding-only":
 			sid := open()
 			// more padding on ONE stream than its window holds: it has to come back
